@@ -29,7 +29,16 @@ pub static SIM_CLOCK_NS: AtomicI64 = AtomicI64::new(0);
 /// Simulated pid seen by workers.
 pub static SIM_PID: AtomicI64 = AtomicI64::new(4242);
 
+/// Per-process seed for simulated environment lookups (0 = pass-through only).
+pub static ENV_SEED: AtomicU64 = AtomicU64::new(0);
+/// Simulated number of CPUs seen by workers (0 = real).
+pub static SIM_NCPU: AtomicU64 = AtomicU64::new(0);
+
 // reach probes
+pub static ENV_READS_WORKER: AtomicU64 = AtomicU64::new(0);
+pub static CWD_READS_WORKER: AtomicU64 = AtomicU64::new(0);
+pub static FS_CALLS_WORKER: AtomicU64 = AtomicU64::new(0);
+pub static NCPU_READS_WORKER: AtomicU64 = AtomicU64::new(0);
 pub static GETRANDOM_CALLS_WORKER: AtomicU64 = AtomicU64::new(0);
 pub static GETRANDOM_CALLS_OTHER: AtomicU64 = AtomicU64::new(0);
 pub static CLOCK_READS_WORKER: AtomicU64 = AtomicU64::new(0);
@@ -46,6 +55,41 @@ extern "C" {
 }
 
 const SYS_GETPID: i64 = 39;
+const SYS_GETCWD: i64 = 79;
+const SYS_OPENAT: i64 = 257;
+const SYS_SCHED_GETAFFINITY: i64 = 204;
+const AT_FDCWD: i64 = -100;
+
+extern "C" {
+    static environ: *const *const u8;
+}
+
+unsafe fn cstr_len(p: *const u8) -> usize {
+    let mut n = 0;
+    while *p.add(n) != 0 {
+        n += 1;
+    }
+    n
+}
+
+unsafe fn real_getenv(name: *const u8, nlen: usize) -> *mut u8 {
+    if environ.is_null() {
+        return std::ptr::null_mut();
+    }
+    let mut e = environ;
+    while !(*e).is_null() {
+        let entry = *e;
+        let mut i = 0;
+        while i < nlen && *entry.add(i) == *name.add(i) {
+            i += 1;
+        }
+        if i == nlen && *entry.add(i) == b'=' {
+            return entry.add(i + 1) as *mut u8;
+        }
+        e = e.add(1);
+    }
+    std::ptr::null_mut()
+}
 const SYS_CLOCK_GETTIME: i64 = 228;
 
 fn is_worker() -> bool {
@@ -102,6 +146,100 @@ pub unsafe extern "C" fn getpid() -> i32 {
         SIM_PID.load(Ordering::SeqCst) as i32
     } else {
         syscall(SYS_GETPID) as i32
+    }
+}
+
+/// Environment lookups (`std::env::var`). Workers: counted; the real environment of the simulated
+/// process (which the scheduler chose) answers first; a name that is NOT set may, per process, be
+/// reported as set to a simulated value ("buggify": a knob nobody thought of is on in some
+/// worlds), so that dependence on *any* variable shows up as a difference between worlds.
+#[no_mangle]
+pub unsafe extern "C" fn getenv(name: *const u8) -> *mut u8 {
+    if name.is_null() {
+        return std::ptr::null_mut();
+    }
+    let nlen = cstr_len(name);
+    let real = real_getenv(name, nlen);
+    if !is_worker() {
+        return real;
+    }
+    let bytes = std::slice::from_raw_parts(name, nlen);
+    if bytes.starts_with(b"RUST_") || bytes.starts_with(b"VERIF_") {
+        return real;
+    }
+    ENV_READS_WORKER.fetch_add(1, Ordering::SeqCst);
+    let seed = ENV_SEED.load(Ordering::SeqCst);
+    if !real.is_null() || seed == 0 {
+        return real;
+    }
+    let mut h: u64 = 0xcbf2_9ce4_8422_2325;
+    for b in bytes {
+        h ^= *b as u64;
+        h = h.wrapping_mul(0x0000_0100_0000_01b3);
+    }
+    let h = mix64(seed ^ h);
+    if h % 2 == 0 {
+        return real; // unset in this world
+    }
+    let v: &[&str] = &["1", "0", "true", "sim", "/sim/path", "2", "x86_64", "always"];
+    let s = format!("{}\0", v[((h >> 8) % v.len() as u64) as usize]);
+    Box::leak(s.into_boxed_str()).as_ptr() as *mut u8
+}
+
+#[no_mangle]
+pub unsafe extern "C" fn getcwd(buf: *mut u8, size: usize) -> *mut u8 {
+    if is_worker() {
+        CWD_READS_WORKER.fetch_add(1, Ordering::SeqCst);
+    }
+    if buf.is_null() {
+        // glibc extension (allocate): std never uses it
+        return std::ptr::null_mut();
+    }
+    let r = syscall(SYS_GETCWD, buf, size);
+    if r < 0 {
+        std::ptr::null_mut()
+    } else {
+        buf
+    }
+}
+
+/// File opens (std::fs goes through open64). Counted for workers, always passed through: the
+/// simulated process runs with its cwd, TMPDIR, HOME, OUT_DIR ... inside a per-scenario sandbox
+/// directory that starts empty, so on-disk state is part of the simulated world.
+#[no_mangle]
+pub unsafe extern "C" fn open64(path: *const u8, flags: i32, mode: u32) -> i32 {
+    if is_worker() {
+        FS_CALLS_WORKER.fetch_add(1, Ordering::SeqCst);
+    }
+    syscall(SYS_OPENAT, AT_FDCWD, path, flags as i64, mode as i64) as i32
+}
+
+#[no_mangle]
+pub unsafe extern "C" fn open(path: *const u8, flags: i32, mode: u32) -> i32 {
+    open64(path, flags, mode)
+}
+
+/// CPU affinity mask (`std::thread::available_parallelism`). Workers see the simulated count.
+#[no_mangle]
+pub unsafe extern "C" fn sched_getaffinity(pid: i32, size: usize, mask: *mut u8) -> i32 {
+    let n = SIM_NCPU.load(Ordering::SeqCst) as usize;
+    if is_worker() {
+        NCPU_READS_WORKER.fetch_add(1, Ordering::SeqCst);
+        if n > 0 && !mask.is_null() {
+            for i in 0..size {
+                *mask.add(i) = 0;
+            }
+            for c in 0..n.min(size * 8) {
+                *mask.add(c / 8) |= 1 << (c % 8);
+            }
+            return 0;
+        }
+    }
+    let r = syscall(SYS_SCHED_GETAFFINITY, pid as i64, size, mask);
+    if r < 0 {
+        -1
+    } else {
+        0
     }
 }
 
